@@ -469,4 +469,52 @@ theorem passphrase_facts : S3db.Gen.facts.deriveKeyAsExpected = true := by decid
     another node's valid ciphertext) -/
 theorem node_name_facts : S3db.Gen.facts.nodeContentChecked = true := by decide
 
+/-! ### the node store above the box (F64)
+
+`persistEncryptor.Store` puts `encrypt(plain)` under the name `hash(plain)`; `Load` decrypts what it
+finds under a name and — `nodeContentChecked` — accepts it only if it hashes to that name.  `hash`
+(BLAKE2b-256, base64) enters as an arbitrary function; nothing is assumed about it except, in
+`swapped_node_refused`, that the two contents at hand do not collide. -/
+
+/-- `persistEncryptor.Load` on the bytes `obj` found under `name` -/
+def loadNode (F : Facts) (hash : Bytes → Bytes) (key : Bytes) (name : Bytes) (obj : Bytes) : Option Bytes :=
+  match decrypt key obj with
+  | none => none
+  | some plain => if F.nodeContentChecked && hash plain != name then none else some plain
+
+/-- what was stored under its own name is read back -/
+theorem stored_node_loads (hash : Bytes → Bytes) (key nonce m : Bytes) (hn : nonce.length = 24) :
+    loadNode S3db.Gen.facts hash key (hash m) (encryptWith key nonce m) = some m := by
+  simp [loadNode, decrypt_encrypt key nonce m hn]
+
+/-- **another node's object under this name is refused**, although it is authentic under the
+    same key: an attacker (or a stray copy) cannot swap nodes, e.g. put an older node back -/
+theorem swapped_node_refused (hash : Bytes → Bytes) (key nonce m m' : Bytes) (hn : nonce.length = 24)
+    (hne : hash m' ≠ hash m) :
+    loadNode S3db.Gen.facts hash key (hash m) (encryptWith key nonce m') = none := by
+  have hF : S3db.Gen.facts.nodeContentChecked = true := by decide
+  simp [loadNode, decrypt_encrypt key nonce m' hn, hF, hne]
+
+/-- whatever `Load` returns hashes to the name it was asked for -/
+theorem loaded_node_matches_name (hash : Bytes → Bytes) (key name obj plain : Bytes)
+    (h : loadNode S3db.Gen.facts hash key name obj = some plain) : hash plain = name := by
+  have hF : S3db.Gen.facts.nodeContentChecked = true := by decide
+  unfold loadNode at h
+  split at h
+  · exact absurd h (by simp)
+  · rename_i p _
+    simp only [hF, Bool.true_and] at h
+    split at h
+    · exact absurd h (by simp)
+    · rename_i hne
+      have : p = plain := by simpa using h
+      subst this
+      simpa using hne
+
+/-- the defect F64 on the model without the check: the swapped object is accepted -/
+theorem without_name_check_swap_accepted (hash : Bytes → Bytes) (key nonce m m' : Bytes) (hn : nonce.length = 24) :
+    let F0 : Facts := { S3db.Gen.facts with nodeContentChecked := false }
+    loadNode F0 hash key (hash m) (encryptWith key nonce m') = some m' := by
+  simp [loadNode, decrypt_encrypt key nonce m' hn]
+
 end S3db.Props.C18
